@@ -434,11 +434,7 @@ def check_C13(cx):
         sched = [boot_move("%s(%s)" % (s["action"], s["args"])) if s["args"] else boot_move(s["action"]) for s in res["trace"] if s["action"] != "Init"]
         cases = [boot_case("regress", boot_consts([1], [L(1)], 0, 1), schedule=sched)]
         cx.absorb(run_driver(cx.driver, "boot", cases, cx.wd, tag="regress"), cases)
-    # "l1x0": Listener.Close racing the listener's own start-up, small enough for the quick tier's 500 paths to walk every
-    # edge of its graph (the larger graphs are only sampled there; the thorough tier walks them completely)
-    x0 = ("l1x0", boot_consts([1], [L(1), X(1)], 0, 1))
-    res = generic_mc(cx, "MCl1x0", "Bootstrap", x0[1], inv, what="C13 final state after Shutdown, program l1x0")
-    for name, consts in (mcs[:2] + [x0] if quick else mcs[:4] + mcs[5:6] + [x0]):
+    def graph_phase(name, consts):
         init, adj = generic_graph(cx, "G" + name, "Bootstrap", consts)
         if name == "l1x0":
             # every pair of consecutive transitions, not only every transition: an implementation that splits one of
@@ -453,17 +449,25 @@ def check_C13(cx):
         cx.edges_total += total
         cx.edges_walked += planned if not v["rejected"] else 0
         log("  bootstrap %s: %d edges, %d paths, %d rejected, t=%.1fs" % (name, total, len(paths), len(v["rejected"]), time.time() - cx.t0))
+    for name, consts in (mcs[:2] if quick else mcs[:4]):
+        graph_phase(name, consts)
     big = [("r2", boot_consts([1, 2], [L(1), C, L(2), C], 3, 5)), ("r2x", boot_consts([1, 2], [L(1), L(2), X(2), C], 2, 3)),
            ("r3", boot_consts([1, 2, 3], [L(1), L(2), C, L(3)], 3, 4))]
     for name, consts in big:
-        # every third case: a user handler panics in HandleActive and the application's exception handler keeps the
+        # every second case: a user handler panics in HandleActive and the application's exception handler keeps the
         # connection - the channel must still be known to the holder and closed by Shutdown
-        cases = [boot_case("%s-r%d" % (name, i), consts, rand={"seed": cx.rnd.randrange(1 << 40), "policy": "uniform"}, active_panics=(i % 3 == 2)) for i in range(60 if quick else 600)]
+        cases = [boot_case("%s-r%d" % (name, i), consts, rand={"seed": cx.rnd.randrange(1 << 40), "policy": "uniform"}, active_panics=(i % 2 == 1)) for i in range(90 if quick else 600)]
         rs = run_driver(cx.driver, "boot", cases, cx.wd, tag=name)
         cx.absorb(rs, cases)
         validate(cx, "T" + name, "TraceBootstrap", consts, rs, inv, {"a": "reset", "p": ""})
         if rs and len(cx.samples) < 3:
             cx.samples.append({"program": consts["Program"], "schedule": rs[0]["sched"][:30], "final": rs[0]["final"]})
+    # "l1x0": Listener.Close racing the listener's own start-up, small enough for the quick tier's 500 paths to walk every
+    # edge of its graph (the larger graphs are only sampled there; the thorough tier walks them completely)
+    x0 = ("l1x0", boot_consts([1], [L(1), X(1)], 0, 1))
+    res = generic_mc(cx, "MCl1x0", "Bootstrap", x0[1], inv, what="C13 final state after Shutdown, program l1x0")
+    for name, consts in ([x0] if quick else mcs[5:6] + [x0]):
+        graph_phase(name, consts)
     # the shipped tcp factory / acceptor (transport/tcp) under the same oracle: free-running runs over loopback sockets
     # (listeners, Bootstrap.Connect clients, plain TCP peers, Shutdown early or late); not gated, not validated by TLC
     n = 120 if quick else 3000
